@@ -223,6 +223,16 @@ def get_fn(i, ctxful):
                 @functools.wraps(plainfn)
                 def fn(*a, **k):
                     return plainfn(*a, **k)
+        elif ctxful == 'posonly':
+            # 'context' as a positional-only first parameter: still the first parameter
+            ns = {}
+            exec(f"def fn(context, /, *args, _name='o{i}'):\n    return _call(_name, (context,) + args)\n",
+                 {'_call': _call}, ns)
+            fn = ns['fn']
+        elif ctxful == 'kwdefault':
+            # a context-taking function with further defaulted / keyword-only parameters
+            def fn(context, *args, flag=False, _name=f'd{i}'):
+                return _call(_name, (context,) + args)
         elif ctxful == 'partial':
             import functools
 
@@ -238,7 +248,7 @@ def get_fn(i, ctxful):
                 return _call(_name, args)
         try:
             fn.__name__ = {True: f'g{i}', False: f'f{i}', 'lookalike': f'k{i}',
-                           'second': f'q{i}'}.get(ctxful, f'p{i}')
+                           'second': f'q{i}', 'posonly': f'o{i}', 'kwdefault': f'd{i}'}.get(ctxful, f'p{i}')
         except AttributeError:
             pass
         _FUNCS[key] = fn
@@ -390,7 +400,7 @@ def fname_of(sp):
         return 'a' + str(sp['fi'])
     fk = sp.get('fkind', 'ctx' if sp['ctxful'] else 'plain')
     return {'plain': 'f', 'ctx': 'g', 'lookalike': 'k', 'partial': 'p', 'second': 'q', 'method': 'm',
-            'callable': 'c', 'wrapped': 'w'}[fk] + str(sp['fi'])
+            'callable': 'c', 'wrapped': 'w', 'posonly': 'o', 'kwdefault': 'd'}[fk] + str(sp['fi'])
 
 
 def prefix_of(sp):
@@ -459,14 +469,16 @@ class World:
                 sp['static'] = st
         else:
             fk = t.weighted([(12, 'plain'), (5, 'ctx'), (1, 'lookalike'), (1, 'partial'), (1, 'second'),
-                             (1, 'method'), (1, 'callable'), (1, 'wrapped')], 'fkind')
+                             (1, 'method'), (1, 'callable'), (1, 'wrapped'), (1, 'posonly'),
+                             (1, 'kwdefault')], 'fkind')
             st = self.gen_static()
             if fk == 'lookalike':
                 st = ('L',) + tuple(st)       # its first (positional) parameter needs a value
             if fk == 'second':
                 st = ('F', 'S') + tuple(st)   # values for `first` and for the parameter named context
             sp = {'name': ('t0', 't1', 't2', 't3', 't0-x', 'results-x')[t.draw(6, 'name')], 'fi': t.draw(5, 'fn'),
-                  'ctxful': fk in ('ctx', 'method', 'callable', 'wrapped'), 'fkind': fk, 'static': st}
+                  'ctxful': fk in ('ctx', 'method', 'callable', 'wrapped', 'posonly', 'kwdefault'),
+                  'fkind': fk, 'static': st}
         Task = _P['pw'].Task
         if like is None and self.allow_sub and not self.in_sub and t.draw(7, 'caller') == 6:
             # a task that calls a small sub-workflow dynamically (distributed branch only)
@@ -596,8 +608,23 @@ def build(world):
     """Random sequence of builder operations.  Returns (Workflow, mirror)."""
     t = world.tape
     pw = _P['pw']
-    wb = pw.WorkflowBuilder(name='wf')
     m = Mirror()
+    if t.draw(4, 'ctor.tasks') == 3:
+        # WorkflowBuilder(tasks=...): the initial, unconnected tasks given as any iterable
+        uids = [world.new_task() for _ in range(1 + t.draw(3, 'ctor.n'))]
+        objs = [world.tasks[u] for u in uids]
+        kind = ('list', 'tuple', 'generator', 'map', 'iter')[t.draw(5, 'ctor.kind')]
+        arg = {'list': lambda: list(objs), 'tuple': lambda: tuple(objs),
+               'generator': lambda: (x for x in objs), 'map': lambda: map(lambda x: x, objs),
+               'iter': lambda: iter(objs)}[kind]()
+        wb = pw.WorkflowBuilder(tasks=arg, name='wf')
+        for u in uids:
+            m.add_task(u, [])
+        world.ops.append(f'WorkflowBuilder(tasks=<{kind} of {uids}>)')
+        world.count('op.ctor_tasks')
+        compare(world, wb, m, 'WorkflowBuilder(tasks=...)')
+    else:
+        wb = pw.WorkflowBuilder(name='wf')
     nops = 2 + t.draw(16, 'nops')
     snaps = []
     for _ in range(nops):
